@@ -80,6 +80,7 @@ inductive CTr
   | ctx (tr : Tr)
   | startup (t c : Nat)
   | memberCb (t c m : Nat)
+  | compCb (t p c : Nat)
 deriving Repr
 
 def allMembers (comps : List Comp) : List Nat := comps.flatMap (·.members)
@@ -93,6 +94,12 @@ def ctxAllowed (cs : CSt) : Tr → Bool
   | .actionDone _ _ => false
   | .detect _ p => !(allMembers cs.comps).contains p && !(allSelfs cs.comps).contains p
   | .insert _ p => !(allSelfs cs.comps).contains p
+  | .nestDec t =>
+    -- the decrement for a nested compound comes after its parent's callback (parsec_composed_taskpool_cb of the
+    -- parent is the on_complete of the nested compound)
+    match (cs.base.nests[t]?).getD [] with
+    | q :: _ => cs.comps.all fun p => !p.members.contains q || (p.members.take p.completed).contains q
+    | [] => true
   | .addReturn t =>
     cs.comps.all fun c =>
       !(cs.base.subs[t]? == some (.startup c.self)) ||
@@ -121,7 +128,7 @@ def cstep? (cs : CSt) : CTr → Option CSt
   | .memberCb t c m =>
     match cs.comps[c]? with
     | some comp =>
-      if comp.members.contains m then
+      if comp.members.contains m && !(allSelfs cs.comps).contains m then
         match step? cs.base (.detect t m) with
         | some s1 =>
           match step? s1 (.actionDone t comp.self) with
@@ -136,6 +143,23 @@ def cstep? (cs : CSt) : CTr → Option CSt
         | none => none
       else none
     | none => none
+  | .compCb t p c =>
+    -- the member of compound p that just terminated is itself a compound (c): its termination was detected nested
+    -- (its descriptor is on top of the thread's nested stack) and its on_complete is parsec_composed_taskpool_cb of p
+    match cs.comps[p]?, cs.comps[c]? with
+    | some par, some ch =>
+      if par.members[par.completed]? = some ch.self ∧ ((cs.base.nests[t]?).getD []).head? = some ch.self ∧ p ≠ c then
+        match step? cs.base (.actionDone t par.self) with
+        | some s2 =>
+          let par' := { par with completed := par.completed + 1, pending := par.pending - 1 }
+          if par.pending - 1 > 0 then
+            match par.members[par.completed + 1]? with
+            | some nx => (step? s2 (.addCall t nx)).map fun s3 => { base := s3, comps := cs.comps.set p par' }
+            | none => none
+          else some { base := s2, comps := cs.comps.set p par' }
+        | none => none
+      else none
+    | _, _ => none
 
 def cstep (cs : CSt) (tr : CTr) : CSt := (cstep? cs tr).getD cs
 
@@ -143,15 +167,74 @@ def cinit (k : Nat) (tps : List Tp) (comps : List Comp) : CSt := { base := init 
 
 def crun (k : Nat) (tps : List Tp) (comps : List Comp) (trs : List CTr) : CSt := trs.foldl cstep (cinit k tps comps)
 
-/-- static well-formedness of the composition: members of all compounds pairwise distinct, compound
-    objects pairwise distinct and not members (no nesting), members are ordinary PTG taskpools, the
-    compound object has no task and a detector that is armed later than add_taskpool, nothing has run yet -/
+/-- static well-formedness of the composition forest: members of all compounds pairwise distinct (a taskpool or
+    compound object is a member of at most one compound), compound objects pairwise distinct, no compound is its
+    own member (nesting goes through OTHER compounds: a member may be the object of another compound), every object
+    is a taskpool descriptor that is not `early`, compound objects have no task, nothing has run yet -/
 def WF (tps : List Tp) (comps : List Comp) : Prop :=
   (allMembers comps).Nodup ∧ (allSelfs comps).Nodup ∧
-  (∀ c ∈ comps, c.completed = 0 ∧ c.pending = 0 ∧ 1 ≤ c.members.length ∧ c.self ∉ allMembers comps ∧
+  (∀ c ∈ comps, c.completed = 0 ∧ c.pending = 0 ∧ 1 ≤ c.members.length ∧ c.self ∉ c.members ∧
      (∃ tp : Tp, tps[c.self]? = some tp ∧ tp.early = false ∧ tp.total = 0) ∧
-     ∀ m ∈ c.members, ∃ tp : Tp, tps[m]? = some tp ∧ tp.early = false ∧ tp.dtd = false) ∧
+     ∀ m ∈ c.members, ∃ tp : Tp, tps[m]? = some tp ∧ tp.early = false) ∧
   (∀ tp ∈ tps, tp.fresh)
+
+/-! ## the composition tree seen from the machine: leaves and in-order precedence -/
+
+/-- `LeafOf comps n x`: x is a leaf taskpool of the subtree whose root is the object n -/
+inductive LeafOf (comps : List Comp) : Nat → Nat → Prop
+  | leaf (n : Nat) (h : n ∉ allSelfs comps) : LeafOf comps n n
+  | node (c : Comp) (m x : Nat) (hc : c ∈ comps) (hm : m ∈ c.members) (h : LeafOf comps m x) : LeafOf comps c.self x
+
+/-- `Precedes comps n a b`: in the subtree rooted at n the leaf a comes before the leaf b in in-order -/
+inductive Precedes (comps : List Comp) : Nat → Nat → Nat → Prop
+  | direct (c : Comp) (i j mi mj a b : Nat) (hc : c ∈ comps) (hij : i < j) (hi : c.members[i]? = some mi)
+      (hj : c.members[j]? = some mj) (ha : LeafOf comps mi a) (hb : LeafOf comps mj b) : Precedes comps c.self a b
+  | nested (c : Comp) (m a b : Nat) (hc : c ∈ comps) (hm : m ∈ c.members) (h : Precedes comps m a b) : Precedes comps c.self a b
+
+/-! ## parsec_compose over composition trees
+
+  `compose(start, next)`: a compound `start` gets `next` (plain or compound) appended as a member and is returned;
+  otherwise a new compound [start, next] is created — `next` may be a compound: it becomes a nested member.
+  NULL arguments return the other argument. -/
+
+inductive CT
+  | leaf (i : Nat)
+  | comp (ms : List CT)
+deriving Repr
+
+def composeT : CT → CT → CT
+  | .comp ms, next => .comp (ms ++ [next])
+  | .leaf i, next => .comp [.leaf i, next]
+
+mutual
+  def CT.leaves : CT → List Nat
+    | .leaf i => [i]
+    | .comp ms => leavesList ms
+  def leavesList : List CT → List Nat
+    | [] => []
+    | t :: ts => t.leaves ++ leavesList ts
+end
+
+/-- a C program's composition expression -/
+inductive CE
+  | tp (i : Nat)
+  | compose (a b : CE)
+deriving Repr
+
+def CE.eval : CE → CT
+  | .tp i => .leaf i
+  | .compose a b => composeT a.eval b.eval
+
+def CE.inorder : CE → List Nat
+  | .tp i => [i]
+  | .compose a b => a.inorder ++ b.inorder
+
+/-- the same on the heap of compound objects that the driver keeps: `heap[c]` = members of compound object c (ids of
+    plain taskpools or of other compound objects), `isComp x` = x is a compound object; returns the id of the result -/
+def hcompose (heap : List (Nat × List Nat)) (fresh a b : Nat) : List (Nat × List Nat) × Nat :=
+  if heap.any (fun e => e.1 == a) then
+    (heap.map (fun e => if e.1 == a then (e.1, e.2 ++ [b]) else e), a)
+  else (heap ++ [(fresh, [a, b])], fresh)
 
 /-! ## the compound before the repair -/
 
@@ -192,6 +275,7 @@ def cstepBuggy? (cs : CSt) : CTr → Option CSt
         | none => none
       else none
     | none => none
+  | .compCb _ _ _ => none
 
 def cstepBuggy (cs : CSt) (tr : CTr) : CSt := (cstepBuggy? cs tr).getD cs
 
